@@ -294,6 +294,23 @@ func CorpusHistories(scratch string, names map[string]bool) ([]*History, []strin
 			}
 			return nil
 		}, func(g *Genesis) { easyParams(g); g.Params.MinTrxGas = 100000 }},
+		// every signed field once: a correctly signed transfer whose wire form is altered in ONE field after
+		// signing (the version among them: 0 is what a missing proto3 field decodes to), then the honest
+		// transaction itself — only the last one may have an effect
+		{"one-field-altered-after-signing", 1, 2, 5, func(s *Sim, h int64) []*TxSpec {
+			if h != 2 && h != 3 {
+				return nil
+			}
+			var out []*TxSpec
+			for _, tp := range []string{"version-0", "version-2", "amount", "to", "gas", "time"} {
+				t := s.TxTransfer(s.User(0), s.User(1).Addr, "1000")
+				t.Tamper, t.Note = tp, "tamper-"+tp
+				out = append(out, t)
+			}
+			honest := s.TxTransfer(s.User(0), s.User(1).Addr, "1000")
+			honest.Note = "honest-after-tampered"
+			return append(out, honest)
+		}, func(g *Genesis) { easyParams(g) }},
 		// the EVM gas pool of a block (25,000,000): the second transaction whose gas LIMIT no longer fits is
 		// refused ("gas limit reached") and leaves nothing; the pool starts afresh with every block — also on a
 		// node restarted in between
